@@ -35,11 +35,23 @@ THEOREMS = [
     "Verif.C13.dense_terminates",
     "Verif.C13.dense_run_length",
     "Verif.C13.dense_run_terminal",
+    "Verif.C13.dense_forward_least_fixpoint",
+    "Verif.C13.dense_edge_api",
+    "Verif.C13.dense_fixpoint_upto",
+    "Verif.C13.dense_least_upto",
+    "Verif.C13.dense_terminates_upto",
+    "Verif.C13.dense_run_terminal_upto",
+    "Verif.C13.dense_forward_upto",
+    "Verif.C13.dense_forward_densemap",
+    "Verif.C13.dense_forward_map",
+    "Verif.C13.dm_repr",
+    "Verif.C13.map_repr",
     "Verif.C13.sparse_fixpoint",
     "Verif.C13.sparse_least",
     "Verif.C13.sparse_schedule_independent",
     "Verif.C13.sparse_terminates",
     "Verif.C13.sparse_run_terminal",
+    "Verif.C13.sparse_forward_least_fixpoint",
     "Verif.C13.map_lattice_laws",
     "Verif.C13.map_merge_no_panic",
     "Verif.C13.dense_map_lattice_laws",
